@@ -25,6 +25,7 @@ CONSTANTS
     MaxChain,            \* chains of length 2..MaxChain over the six stage templates
     PaethPlanes,         \* the whole (above, upper-left) plane is tabulated for left in 0..PaethPlanes-1 (0 = off)
     Emit,
+    DevEmpty,                \* finding filter.empty-array (repaired by a002bcd): /Filter [] decoded to nothing (TRUE = the code as it was)
     DevAvg, DevArr, DevNul   \* deviation switches of Codecs' impl-shaped layer: the code as it is (all FALSE = repaired)
 
 VARIABLES pc, case
@@ -50,7 +51,7 @@ Parms(pred, colors, bpc, columns, early) ==
     [present |-> TRUE, pred |-> pred, colors |-> colors, bpc |-> bpc, columns |-> columns, early |-> early]
 
 ChainCase(fam, plain, chain, chs, form) ==
-    [k |-> "chain", fam |-> fam, plain |-> plain, chain |-> chain, form |-> form, ws |-> -1,
+    [k |-> "chain", fam |-> fam, plain |-> plain, chain |-> chain, form |-> form, ws |-> -1, ff |-> "std",
      fts |-> chs[1].fts, sfts |-> [i \in 1..Len(chs) |-> chs[i].fts], enc |-> Encode(plain, chain, chs)]
 
 Init == pc = "pick" /\ case = [k |-> "none"]
@@ -72,7 +73,7 @@ PickA85Ws ==
           LET e == A85Encode(plain, TRUE) IN
           \E pos \in 0..(Len(e) - 1) :
              case' = [k |-> "chain", fam |-> "a85ws", plain |-> plain, chain |-> <<Stage(A85, DefaultParms)>>,
-                      form |-> "none", ws |-> w, fts |-> <<>>, sfts |-> <<<<>>>>,
+                      form |-> "none", ws |-> w, ff |-> "std", fts |-> <<>>, sfts |-> <<<<>>>>,
                       enc |-> IF pos = 0
                               THEN Concat([i \in 1..(Len(e) - 2) |-> <<e[i], w>>]) \o EOD85
                               ELSE InsertAt(e, pos, w)]
@@ -189,7 +190,7 @@ PickChain ==
           \E ts \in [1..n -> Templates] :
              LET b == BuildChain(plain, ts) IN
              \E form \in IF \E i \in 1..n : b.chain[i].present THEN {"array"} ELSE {"none", "array"} :
-                case' = [k |-> "chain", fam |-> "chain", plain |-> plain, chain |-> b.chain, form |-> form, ws |-> -1,
+                case' = [k |-> "chain", fam |-> "chain", plain |-> plain, chain |-> b.chain, form |-> form, ws |-> -1, ff |-> "std",
                          fts |-> <<>>, sfts |-> b.sfts, enc |-> b.x]
     /\ pc' = "case"
 
@@ -205,7 +206,18 @@ PickPaethPlane ==
                                    row |-> [c \in 1..256 |-> PaethPredictor(case.a, b, c - 1)]]
     /\ pc' = "case"
 
-Next == PickPaethLeft \/ PickPaethPlane \/ PickA85 \/ PickA85Ws \/ PickZ \/ PickLzw \/ PickLzwLong \/ PickPng \/ PickPngBytes \/ PickPaeth \/ PickRow \/ PickChain
+\* the chain of zero filters in its three spellings (no Filter entry, /Filter null, /Filter []), with
+\* no DecodeParms, an empty DecodeParms array, or a left-over DecodeParms dictionary; the encoded
+\* bytes are the plain bytes
+ZeroPlains == {<<>>, <<7>>, <<3, 1, 2, 0, 255>>, [i \in 1..40 |-> IF i % 2 = 0 THEN 7 ELSE 9]}
+PickNoFilter ==
+    /\ pc = "pick"
+    /\ \E plain \in ZeroPlains, ff \in {"absent", "null", "empty"}, form \in {"none", "array", "dict"} :
+          case' = [k |-> "chain", fam |-> "nofilter", plain |-> plain, chain |-> <<>>, form |-> form, ws |-> -1, ff |-> ff,
+                   fts |-> <<>>, sfts |-> <<>>, enc |-> plain]
+    /\ pc' = "case"
+
+Next == PickPaethLeft \/ PickPaethPlane \/ PickA85 \/ PickA85Ws \/ PickZ \/ PickLzw \/ PickLzwLong \/ PickPng \/ PickPngBytes \/ PickPaeth \/ PickRow \/ PickChain \/ PickNoFilter
 
 Spec == Init /\ [][Next]_vars
 
@@ -219,16 +231,20 @@ RoundTrip == IsChain => Decode(case.enc, case.chain) = Good(case.plain)
 \* the reference encoders really produce what they claim (anti-vacuity of RoundTrip): the encoded
 \* form differs from the plain one and PNG data carries one filter byte per row
 EncoderShape ==
-    IsChain => /\ case.enc # case.plain
+    IsChain => /\ (case.chain # <<>> => case.enc # case.plain)
                /\ case.fam = "png" =>
                      LET st == case.chain[1]
                          z  == IF st.f = Flate THEN ZInflateStored(case.enc) ELSE LzwDecode(case.enc, st.early)
                      IN z.ok /\ Len(z.data) = Len(case.plain) + Len(case.fts)
 
 \* (impl-shaped, as repaired) lopdf's algorithm without the confirmed deviations refines the declarative layer
-ImplRepaired(c) == ImplDecodeO(c.enc, c.chain, c.form, NoOracle, FALSE, FALSE, FALSE)
-ImplAsIs(c)     == ImplDecodeO(c.enc, c.chain, c.form, NoOracle, DevAvg, DevArr, DevNul)
-Refines == IsChain => ImplRepaired(case) = Good(case.plain)
+\* decompressed_content is defined for a chain of zero filters only in the spelling /Filter []
+HasDecode(c) == c.chain # <<>> \/ c.ff = "empty"
+ImplRepaired(c) == IF c.chain = <<>> THEN ImplDecodeZero(c.enc, c.ff, FALSE)
+                   ELSE ImplDecodeO(c.enc, c.chain, c.form, NoOracle, FALSE, FALSE, FALSE)
+ImplAsIs(c)     == IF c.chain = <<>> THEN ImplDecodeZero(c.enc, c.ff, DevEmpty)
+                   ELSE ImplDecodeO(c.enc, c.chain, c.form, NoOracle, DevAvg, DevArr, DevNul)
+Refines == (IsChain /\ HasDecode(case)) => ImplRepaired(case) = Good(case.plain)
 
 \* classes of input on which the code deviates when the corresponding switch is on (the narrow signatures
 \* of the findings png.avg, decodeparms.array, a85.nul - all repaired; kept to name regressions);
@@ -242,11 +258,12 @@ Classes(c) ==
                 /\ c.chain[i].present /\ UsesPng(c.chain[i]) /\ RowLen(c.chain[i]) > Bpp(c.chain[i])
                 /\ \E r \in 1..Len(c.sfts[i]) : c.sfts[i][r] = 3
           THEN {"png.avg"} ELSE {})
+    \cup (IF c.chain = <<>> /\ c.ff = "empty" /\ c.plain # <<>> THEN {"filter.empty-array"} ELSE {})
 
 \* (impl-shaped, as the code is) every deviation of the design falls in a listed class
-DevExplained == IsChain => (ImplAsIs(case) # Good(case.plain) => Classes(case) # {})
+DevExplained == (IsChain /\ HasDecode(case)) => (ImplAsIs(case) # Good(case.plain) => Classes(case) # {})
 \* the Average deviation alone (parameters honoured in both forms)
-ImplAvgOnly(c) == ImplDecodeO(c.enc, c.chain, c.form, NoOracle, TRUE, FALSE, FALSE)
+ImplAvgOnly(c) == IF c.chain = <<>> THEN ImplRepaired(c) ELSE ImplDecodeO(c.enc, c.chain, c.form, NoOracle, TRUE, FALSE, FALSE)
 
 \* Paeth: the PNG pseudo-code against its defining property - the value among a, b, c closest to
 \* a + b - c, ties broken in the order a, b, c
@@ -272,7 +289,7 @@ EmitInv ==
         PrintT(<<"REPLAY",
                  IF case.k = "chain"
                  THEN ToJson([k |-> "chain", fam |-> case.fam, plain |-> case.plain, enc |-> case.enc, chain |-> case.chain,
-                              form |-> case.form, fts |-> case.fts, impl |-> ImplAsIs(case), implAvg |-> ImplAvgOnly(case),
+                              form |-> case.form, ff |-> case.ff, fts |-> case.fts, impl |-> ImplAsIs(case), implAvg |-> ImplAvgOnly(case),
                               cls |-> SetToSeq(Classes(case))])
                  ELSE ToJson([k |-> "row", ft |-> case.ft, bpp |-> case.bpp, prev |-> case.prev, cur |-> case.cur,
                               want |-> RowWant(case), impl |-> RowImpl(case), avgdev |-> RowAvgDev(case)])>>)
